@@ -67,6 +67,9 @@ type history struct {
 	// Faults lists the ordinals (0-based, in call order) of storage NewFile calls that fail. A
 	// history with faults is outside the model (no T leg); only the retention oracle of C18 runs on it.
 	Faults []int `json:"faults,omitempty"`
+	// WriteFaults lists the ordinals (0-based, in call order) of Write calls on storage part writers that fail
+	// (disk full); same status as Faults: outside the model, retention oracle only.
+	WriteFaults []int `json:"writefaults,omitempty"`
 	// H264Reorder selects the H264 concretisation with real slice headers and pic_order_cnt_type 0
 	// parameter sets (h264.go); histories recorded before it existed replay with the legacy layout.
 	H264Reorder bool `json:"h264reorder,omitempty"`
@@ -259,6 +262,16 @@ func genHistory(r *rng.R, long bool) history {
 		h.stat("long-running-histories")
 	}
 	ntpBase := int64(1700000000)*1e9 + int64(r.Intn(1000))*1e6
+	// MPEG-TS, one history in five with a video track: the stream starts a whole number of seconds below zero and a
+	// random-access unit lands on DTS 0 exactly, where a segment is cut (a zero end time must not be read as "none")
+	aimZero := h.Variant == 1 && startSec >= -9 && startSec <= 30 && r.Bool(1, 5)
+	if aimZero {
+		startSec = -int64(1 + r.Intn(3))
+		if h.SegMin > 1e9 {
+			h.SegMin = 1e9
+		}
+		h.stat("mpegts-cut-at-dts-zero")
+	}
 	for i, t := range tracks {
 		s := &st[i]
 		s.params = t.Params0
@@ -271,6 +284,9 @@ func genHistory(r *rng.R, long bool) history {
 			}
 			s.jitter = r.Bool(1, 3)
 			s.gop = []int{1, 2, 5, 10, 25, 30, 60, 100}[r.Intn(8)]
+			if aimZero {
+				s.frameDur, s.jitter, s.gop = 90000/fps, false, int(fps)
+			}
 			s.bf = r.Intn(4)
 			s.pocStep = 2
 			if r.Bool(1, 5) {
@@ -279,6 +295,9 @@ func genHistory(r *rng.R, long bool) history {
 			s.sinceKey = r.Intn(s.gop + 1) // may start mid-GOP
 			if s.sinceKey == 0 {
 				s.sinceKey = s.gop
+			}
+			if aimZero {
+				s.sinceKey = s.gop // starts on a random-access unit: every gop-th unit is one, DTS 0 included
 			}
 			if t.Kind == kAV1 && r.Bool(1, 2) {
 				// writeAV1 has no "wait for the first random-access unit" gate: keep half of the AV1
@@ -305,7 +324,7 @@ func genHistory(r *rng.R, long bool) history {
 		}
 	}
 	var sim *leadSim
-	if r.Bool(1, 3) {
+	if r.Bool(1, 3) && !aimZero {
 		sim = &leadSim{variant: h.Variant, rate: tracks[lead].Rate, segMin: h.SegMin, partMin: h.PartMin}
 		if sim.partMin == 0 {
 			sim.partMin = 200e6
@@ -613,7 +632,7 @@ func genHistory(r *rng.R, long bool) history {
 }
 
 // outsideModel: histories of the search-only legs (storage faults, init failure, slow reader) have no T leg
-func (h *history) outsideModel() bool { return len(h.Faults) > 0 || h.Leg != "" }
+func (h *history) outsideModel() bool { return len(h.Faults) > 0 || len(h.WriteFaults) > 0 || h.Leg != "" }
 
 // genInitFailure turns a generated history into one of the init-failure leg (C04, outside the model):
 // a single-stream fMP4 muxer with an H264 track that receives, at a few places, a parameter-set-only
